@@ -114,3 +114,30 @@ fn probe_archive_footer_len_underflow_no_panic() {
     bytes[n - 4..].copy_from_slice(&u32::MAX.to_le_bytes());
     let _ = ArchiveReader::new(Cursor::new(bytes));
 }
+
+/// btf.read recursion depth: a footer whose offset list is long and points at blocks of another file must not overflow the stack
+/// (white-box: the index is edited in memory, which is what a crafted footer deserialises to)
+#[test]
+fn probe_deep_offsets_no_stack_overflow() {
+    let mut a = pnew();
+    let ida = a.start_file("a").unwrap();
+    let idb = a.start_file("b").unwrap();
+    a.append_file_content(idb, 3, &b"xyz"[..]).unwrap();
+    a.append_file_content(ida, 3, &b"abc"[..]).unwrap();
+    a.end_file(ida).unwrap();
+    a.end_file(idb).unwrap();
+    a.finalize().unwrap();
+    let bytes = a.into_raw();
+    let mut r = ArchiveReader::new(Cursor::new(bytes)).unwrap();
+    {
+        let fi = r.metadata.as_mut().unwrap();
+        let off_b = fi.files_info.get("b").unwrap().offsets[0];
+        let fa = fi.files_info.get_mut("a").unwrap();
+        let first = fa.offsets[0];
+        // after a's FileStart comes b's FileStart: every later offset points at a block of b again
+        fa.offsets = std::iter::once(first).chain(std::iter::repeat(off_b).take(400_000)).collect();
+    }
+    let mut f = r.get_file("a".to_string()).unwrap().unwrap();
+    let mut out = Vec::new();
+    let _ = f.data.read_to_end(&mut out); // an error is fine; a crash is not
+}
